@@ -440,6 +440,57 @@ def run_sequence(rng, res, stats):
     return case
 
 
+def run_poked(rng, res, stats):
+    """summarize_status on states written directly into the objects (attributes reassigned after construction): mostly
+    complete audits with zero, one or two offending assertions at random positions (first / last assertion, first / last
+    contest), offenders just above the own limit, below ANOTHER contest's limit, NaN; then reset and summarize again."""
+    A = lib()
+    audit, contests, cvrs, dicts, honest = build_audit(rng, stub_rate=0.0)
+    if rng.random() < 0.5 and len(contests) > 1:
+        keys = list(contests.keys())
+        rng.shuffle(keys)
+        contests = {k: contests[k] for k in keys}
+    lims = sorted({float(c.risk_limit) for c in contests.values()})
+    slots = [(c, a) for c, con in contests.items() for a in con.assertions]
+    r = rng.random()
+    noff = 0 if r < 0.35 else (1 if r < 0.8 else rng.randint(2, 3))
+    off = set(rng.sample(slots, min(noff, len(slots))))
+    if noff and rng.random() < 0.5:                                    # the last assertion of a contest is the offender
+        c = rng.choice(list(contests))
+        off = (off - {rng.choice(sorted(off))}) | {(c, list(contests[c].assertions)[-1])}
+    for c, con in contests.items():
+        lim = float(con.risk_limit)
+        for a, asn in con.assertions.items():
+            if (c, a) in off:
+                bigger = [x for x in lims if x > lim]
+                asn.p_value = rng.choice([float(np.nextafter(lim, 1)), float("nan"), 1.0, lim * 1.5]
+                                         + ([bigger[-1], (lim + bigger[0]) / 2] if bigger else []))
+            else:
+                asn.p_value = rng.choice([lim, lim, lim / 2, 0.0, lim / 8])
+            asn.proved = rng.random() < 0.5
+            asn.p_history = [1.0, float(asn.p_value)] if rng.random() < 0.5 else []
+    case = {"config": {n: {"risk_limit": d["risk_limit"], "kind": d["kind"]} for n, d in dicts.items()},
+            "order": list(contests.keys()), "poked": True, "init": read_state(contests), "steps": []}
+    for op in (["sum"] if rng.random() < 0.7 else ["sum", "reset", "sum"]):
+        before = read_state(contests)
+        if op == "sum":
+            with contextlib.redirect_stdout(io.StringIO()):
+                ret = audit.summarize_status(contests)
+            s = {"op": "sum", "ret": bool(ret), "after": read_state(contests)}
+            case["steps"].append(s)
+            oracle_sum(res, case, before, s)
+            stats["sum"] += 1
+            stats["sum_true"] += int(bool(ret))
+            stats["poked_single_offender"] += int(len(off) == 1 and len(case["steps"]) == 1)
+        else:
+            ret = A.Assertion.reset_p_values(contests)
+            s = {"op": "reset", "ret": ret, "after": read_state(contests)}
+            case["steps"].append(s)
+            oracle_reset(res, case, before, s)
+            stats["reset"] += 1
+    return case
+
+
 # ---------------------------------------------------------------- check_audit_parameters
 CAP_MSG = [(1, "expected rate of 1-vote errors"), (2, "expected rate of 2-vote errors"), (3, "negative in contest"),
            (4, "exceeds 1/2 in contest"), (5, "unsupported choice function"), (6, "more winners than candidates"),
@@ -525,10 +576,12 @@ def cap_oracle(res, c):
 
 def run(ctx, res):
     rng = ctx.rng
-    stats = {"set": 0, "sum": 0, "reset": 0, "set_raises": 0, "sum_true": 0}
+    stats = {"set": 0, "sum": 0, "reset": 0, "set_raises": 0, "sum_true": 0, "poked_single_offender": 0}
     cases = []
-    for _ in range(ctx.n(260, 6000)):
+    for _ in range(ctx.n(240, 6000)):
         cases.append(run_sequence(rng, res, stats))
+    for _ in range(ctx.n(300, 6000)):
+        cases.append(run_poked(rng, res, stats))
     cr = C.run_corr(ctx.pid, "seq", IMPORTS, "list contest * list step", cases, seq_lit, "agree_seq", shard=60, show="show_seq")
     res.corr.append(("set_p_values / summarize_status / reset_p_values sequences vs Status.v", cr, seq_json))
     caps = [gen_cap(rng) for _ in range(ctx.n(300, 5000))]
